@@ -299,6 +299,11 @@ Raised(e) ==
   /\ viol' = viol \cup {e.clause}
   /\ UNCHANGED <<objs, cls, root, prov, strOf, canonOf, rootPart, sers, strs, mols, results>>
 
+\* --- a library call on an input too large to be validated in full returned normally (C15: event-level validation)
+Completed(e) ==
+  /\ e.op = "completed"
+  /\ UNCHANGED vars
+
 \* --- graph_from_tucan(s) -> ret | exception
 ParseClauses(e, D) ==
   IF D.acc THEN
@@ -475,7 +480,7 @@ WriteText(e) ==
   /\ UNCHANGED <<objs, cls, root, prov, strOf, canonOf, rootPart, sers, strs, mols, results>>
 
 Step(e) == \/ Input(e) \/ Derive(e) \/ Mutate(e) \/ SameMol(e) \/ Canonicalize(e) \/ Automorphism(e) \/ Serialize(e)
-           \/ Raised(e) \/ Parse(e) \/ ReadText(e) \/ SameText(e) \/ WriteText(e) \/ StringIn(e) \/ Respell(e) \/ Result(e) \/ Permute(e)
+           \/ Raised(e) \/ Completed(e) \/ Parse(e) \/ ReadText(e) \/ SameText(e) \/ WriteText(e) \/ StringIn(e) \/ Respell(e) \/ Result(e) \/ Permute(e)
 
 \* ------------------------------------------------------------------ the properties, as state predicates
 Clean(prefix) == \A c \in viol : SubSeq(c, 1, Len(prefix)) # prefix
